@@ -33,8 +33,10 @@ def backtesting_log_mode(dispatcher):
         return record
 
     logging.setLogRecordFactory(record_factory)
-    yield
-    logging.setLogRecordFactory(old_factory)
+    try:
+        yield
+    finally:
+        logging.setLogRecordFactory(old_factory)
 
 
 # https://docs.python.org/3/howto/logging-cookbook.html#implementing-structured-logging
